@@ -547,7 +547,9 @@ def server_shutdown(u: U):
     """Server.pre_shutdown closes every connection (idle ones end at once); Server.shutdown drains every connection
     with the timeout and forgets them (element-wise over a generic connection list)"""
     log = []
-    conns = [_Conn(log, i) for i in range(u.choose(3, "n_conns"))]
+    from pyvc.registry import width
+
+    conns = [_Conn(log, i) for i in range(u.choose(width(3, 6), "n_conns"))]
     timeout = u.real("timeout")
     gathered = []
 
@@ -564,7 +566,7 @@ def server_shutdown(u: U):
 
     srv = u.obj("Server", {"_connections": cs}, {}, shared=False)
     f1 = u.load(SRV, "Server.pre_shutdown")
-    u.loop(FN_PRESHUT, 0, unroll=True, bound=3)
+    u.loop(FN_PRESHUT, 0, unroll=True, bound=8)
     o1 = u.call(f1, srv)
     u.check("C20.server.pre_shutdown_closes_all", o1.ok and [e for e in log if e[0] == "close"] == [("close", c.i) for c in conns],
             "every live connection is told to close")
